@@ -43,6 +43,24 @@ def run(ctx):
     inv16 = [iv for iv in invs if all(c in classes16 for c in iv["files"]) and (iv["a"]["ifc"] or not quick) and not iv["a"]["quiet"]]
     events += pmap(do16, list(enumerate(inv16)), nproc=16)
     ctx.cov["utf16_invocations"] = len(inv16)
+    # the same protocol under a configuration that inserts a header file whose text lies outside what the output encoding of an
+    # ASCII source can hold: the bytes compared / written under --check / --if-changed are the bytes a plain run writes
+    cfgh, classesh = drv.make_class_files(unc, ctx.work.sub("worldhdr"), extra_cfg=b"cmt_insert_file_header=aux_hdr8.txt\n",
+                                          extra_files={"aux_hdr8.txt": "/* \u00a9 2026 \u2014 all \u20ac rights \u53c2 */\n".encode("utf-8")})
+
+    def doh(job):
+        n, inv = job
+        files = [drv.FileSpec("f%d.c" % (i + 1), classesh[c][0], classesh[c][1], c, "C") for i, c in enumerate(inv["files"])]
+        d = os.path.join(ctx.work.path, "h%06d" % n)
+        o = drv.execute(unc, cfgh, inv["a"], files, d)
+        shutil.rmtree(d, ignore_errors=True)
+        return {"a": inv["a"], "files": inv["files"], "o": o, "exp": inv["exp"], "enc": "hdr"}
+
+    invh = [iv for iv in invs if all(c in classesh for c in iv["files"]) and (iv["a"]["ifc"] or iv["a"]["check"]) and not iv["a"]["quiet"]]
+    if quick:
+        invh = invh[::2]
+    events += pmap(doh, list(enumerate(invh)), nproc=16)
+    ctx.cov["inserted_header_invocations"] = len(invh)
     ctx.cov["evaluations"] = len(events)
     ctx.cov["distinct_nontrivial"] = len({json.dumps([e["a"], e["files"]], sort_keys=True) for e in events
                                           if (e["a"]["check"] or e["a"]["ifc"]) and len(e["files"]) >= 1})
@@ -80,7 +98,11 @@ def replay(path):
     unc = build("hooks")
     wk = Work("replay")
     try:
-        cfg, classes = drv.make_class_files(unc, wk.sub("world"), enc=rp.get("enc"))
+        if rp.get("enc") == "hdr":
+            cfg, classes = drv.make_class_files(unc, wk.sub("world"), extra_cfg=b"cmt_insert_file_header=aux_hdr8.txt\n",
+                                                extra_files={"aux_hdr8.txt": "/* \u00a9 2026 \u2014 all \u20ac rights \u53c2 */\n".encode("utf-8")})
+        else:
+            cfg, classes = drv.make_class_files(unc, wk.sub("world"), enc=rp.get("enc"))
         files = [drv.FileSpec("f%d.c" % (i + 1), classes[c][0], classes[c][1], c, "C") for i, c in enumerate(rp["files"])]
         o = drv.execute(unc, cfg, rp["a"], files, wk.sub("run"))
         print("command:", " ".join(o["cmd"]))
